@@ -171,3 +171,46 @@ func Verif_C04_source_order() {
 	verif_assert(p1.Equal(p2) && b1.Equal(b2) && bal1.Equal(bal2), "books and payouts do not depend on the order of the sources")
 	verif_reach("order checked")
 }
+
+// The payout step never changes what a destination is entitled to: what it has received plus what is still recorded for it is the
+// same before and after, whether the bank pays, refuses (blocked address) or fails. Code under test: SendCoinsFromStates,
+// sendCoinsToModuleAccount, sendCoinsToBaseAccount, burnCoins.
+func Verif_C04_payout_keeps_entitlement() {
+	k := verifDistKeeper()
+	ctx := verifCtx(verif_time_range("now", 1600000000, 1900000000))
+	var states []types.State
+	for i, a := range dDestPool {
+		if a.Type == types.Main || (a.Type == types.ModuleAccount && a.Id == dMain) {
+			continue
+		}
+		acc := a
+		states = append(states, types.State{Account: &acc, Remains: verifDecCoins(dDenom, verif_dec_range("rem"+string(rune('a'+i)), "0", "2e36"))})
+	}
+	states = append(states, types.State{Account: &types.Account{}, Burn: true, Remains: verifDecCoins(dDenom, verif_dec_range("rem_burn", "0", "2e36"))})
+	before := verif_deep_copy(states).([]types.State)
+	W.bank.fund(verifModuleAddr(dMain), dDenom, verifRemainsSum(states, dDenom).TruncateInt().Add(verif_int_range("extra", "0", dMaxAmt)))
+	if verif_choice("baseDestinationBlocked", 2) == 1 {
+		W.bank.blocked = append(W.bank.blocked, verifAddrKey(verifAddr(dBase2)))
+	}
+	balBefore := make([]sdk.Int, len(before))
+	for i, st := range before {
+		balBefore[i] = verifBalOfAcc(*st.Account, dDenom)
+	}
+	W.bank.faults = true
+	k.SendCoinsFromStates(ctx, states)
+	W.bank.faults = false
+	after := k.GetAllStates(ctx)
+	for i, st := range before {
+		if st.Burn {
+			continue
+		}
+		got := verifBalOfAcc(*st.Account, dDenom).Sub(balBefore[i])
+		if st.Account.Type == types.InternalAccount {
+			got = sdk.ZeroInt()
+		}
+		verif_assert(sdk.NewDecFromInt(got).Add(verifStateRemains(after, false, *st.Account)).Equal(st.Remains.AmountOf(dDenom)),
+			"payout: received + still recorded = recorded before, for every destination, also when the bank refuses or fails")
+		verif_assert(!got.IsNegative(), "payout: no destination loses coins")
+	}
+	verif_reach("payout entitlement checked")
+}
